@@ -623,6 +623,7 @@ func runC19(tier string, seed uint64) int {
 	})
 	cellsSeen := map[string]bool{}
 	byKind := map[string]int{}
+	probes := map[string]int{}
 	rejected := 0
 	var bad []int
 	for k := range outs {
@@ -633,6 +634,15 @@ func runC19(tier string, seed uint64) int {
 		cl := o.c.cell
 		cellsSeen[fmt.Sprintf("%s/%d/%d/%d", cl.kind, cl.n, cl.i, cl.j)] = true
 		byKind[cl.kind]++
+		if len(o.c.docs) > 0 && strings.Contains(o.c.docs[0].Text, "creationTimestamp: \"2024-05-01") {
+			probes["cells dumped from a cluster (uid, resourceVersion, generation on every document)"]++
+		}
+		for _, lf := range o.c.lay {
+			if lf.Dress != 0 {
+				probes["cells with a dressed file (comment header / doubled separators / CRLF)"]++
+				break
+			}
+		}
 		rejected += o.fired
 		if o.why != "" {
 			bad = append(bad, k)
@@ -677,6 +687,7 @@ func runC19(tier string, seed uint64) int {
 			"exhaustive":                  false,
 			"exhaustive_part":             fmt.Sprintf("all (kind, n, i, j, base order) cells listed in rule up to the stated n; larger n sampled"),
 			"cells_by_kind":               byKind,
+			"reach_probes":                probes,
 			"commands_rejecting":          rejected,
 			"failing_cells":               len(bad),
 			"known_findings_observed":     len(rp.known),
